@@ -141,6 +141,14 @@ static void bodyEdit(const std::string& dir, const std::string& input, Digest& d
     OPB; std::string p = dir + "/edited.c3d"; oc = guarded([&] { c->write(p); }); d.add(std::string("save ") + outcomeName(oc)); fileTo(d, p, "file");
     OPB; c.reset(); d.add("destroyed");
 }
+// a FRESH object whose first modifying call is a group lock (no parameter edited, no frame added before), while the other thread constructs and dumps fresh objects of its own
+static void bodyFreshLock(const std::string& dir, const char* group, Digest& d) {
+    OPB; C3D c; snapTo(d, c, "fresh");
+    OPB; Outcome oc = guarded([&] { c.lockGroup(group); }); d.add(std::string("lock ") + outcomeName(oc)); snapTo(d, c, "locked");
+    OPB; { C3D other; snapTo(d, other, "another fresh object"); std::string p = dir + "/out.c3d"; oc = guarded([&] { other.write(p); }); d.add(std::string("save ") + outcomeName(oc)); fileTo(d, p, "file"); }
+    OPB; oc = guarded([&] { c.unlockGroup(group); }); d.add(std::string("unlock ") + outcomeName(oc)); snapTo(d, c, "unlocked");
+    OPB; { C3D third; snapTo(d, third, "a third fresh object"); }
+}
 struct BodyDef { std::string name; std::function<void(const std::string&, Digest&)> run; bool needsPair = false; };
 
 // ---- a PAIR of objects, one derived from the other: B is filled with frames and parameters taken out of A (by reference to A's stored
@@ -179,6 +187,8 @@ static std::vector<BodyDef> makeBodies(const std::string& scratch) {
     std::vector<BodyDef> b;
     b.push_back({"pair.A", [](const std::string& d, Digest& g) { bodyPairEdit(0, d, g); }, true});
     b.push_back({"pair.B", [](const std::string& d, Digest& g) { bodyPairEdit(1, d, g); }, true});
+    b.push_back({"freshlock(POINT)", [](const std::string& d, Digest& g) { bodyFreshLock(d, "POINT", g); }});
+    b.push_back({"freshlock(ANALOG)", [](const std::string& d, Digest& g) { bodyFreshLock(d, "ANALOG", g); }});
     b.push_back({"edit(M)", [fM](const std::string& d, Digest& g) { bodyEdit(d, fM, g); }});
     b.push_back({"edit(R)", [fR](const std::string& d, Digest& g) { bodyEdit(d, fR, g); }});
     b.push_back({"loadsave(U)", [fU](const std::string& d, Digest& g) { bodyLoadSave(d, fU, g); }});
@@ -257,7 +267,7 @@ int main(int argc, char** argv) {
     bool thorough = tier == "thorough";
     std::vector<BodyDef> defs = makeBodies(scratch);
     auto idx = [&](const std::string& n) { for (size_t i = 0; i < defs.size(); ++i) if (defs[i].name == n) return (int)i; return -1; };
-    std::vector<std::vector<int>> groups = {{idx("loadsave(U)"), idx("loadsave(U')")}, {idx("loadsave(A)"), idx("loadsave(A')")}, {idx("loadsave(A)"), idx("build(0)")}, {idx("build(0)"), idx("build(1)")}, {idx("loadsave(B)"), idx("edit(C)")}, {idx("edit(M)"), idx("edit(C)")}, {idx("pair.A"), idx("pair.B")}};
+    std::vector<std::vector<int>> groups = {{idx("loadsave(U)"), idx("loadsave(U')")}, {idx("loadsave(A)"), idx("loadsave(A')")}, {idx("loadsave(A)"), idx("build(0)")}, {idx("build(0)"), idx("build(1)")}, {idx("loadsave(B)"), idx("edit(C)")}, {idx("edit(M)"), idx("edit(C)")}, {idx("pair.A"), idx("pair.B")}, {idx("freshlock(POINT)"), idx("freshlock(ANALOG)")}};
     if (thorough) { groups.push_back({idx("edit(C)"), idx("build(1)")}); groups.push_back({idx("loadsave(A)"), idx("loadsave(B)")}); groups.push_back({idx("loadsave(A)"), idx("build(0)"), idx("edit(C)")}); groups.push_back({idx("edit(M)"), idx("edit(R)")}); }
     auto jstr = [](const std::string& s) { std::string o = "\""; for (unsigned char ch : s) { if (ch == '"' || ch == '\\') { o += '\\'; o += (char)ch; } else if (ch == '\n') o += "\\n"; else if (ch < 32 || ch > 126) o += '?'; else o += (char)ch; } return o + "\""; };
     auto groupName = [&](const std::vector<int>& g) { std::string s; for (int b : g) { if (!s.empty()) s += " || "; s += defs[(size_t)b].name; } return s; };
